@@ -252,9 +252,19 @@ fn ddnnf_case(ctx: &mut Ctx, rng: &mut Rng) {
     let t = clauses_tt(&cl, n);
     let perm = rng.perm(n);
     let order = VarOrder::new(&perm.iter().map(|x| VarLabel::new(*x as u64)).collect::<Vec<_>>());
-    let builder = StandardDecisionNNFBuilder::new(order);
-    let b = &builder;
-    let p = b.compile_cnf_topdown(&clauses_to_cnf(&cl));
+    // either node store; the semantic-hash store yields diagrams with complemented
+    // internal edges
+    let semantic = rng.bool();
+    let sem_builder;
+    let std_builder;
+    let p = if semantic {
+        sem_builder = rsdd::builder::decision_nnf::SemanticDecisionNNFBuilder::<{ primes::U64_LARGEST }>::new(order);
+        sem_builder.compile_cnf_topdown(&clauses_to_cnf(&cl))
+    } else {
+        std_builder = StandardDecisionNNFBuilder::new(order);
+        std_builder.compile_cnf_topdown(&clauses_to_cnf(&cl))
+    };
+    ctx.seen("ddnnf_stores", if semantic { "semantic64" } else { "standard" });
     let mut w = BddWalker::new(n);
     if w.tt(p) != t {
         // C06's business; do not count on top of a wrong diagram
